@@ -168,6 +168,7 @@ func (p *Path) applySpec(in ssa.Instruction, site string, spec *FuncSpec, what s
 		cpkg = specPkg(env, spec, what)
 	}
 	pre := p.st.clone()
+	p.lockInvCheck(in, what, site)
 	c := &SpecCtx{p: p, st: &p.st, old: nil, vars: vars, pkg: cpkg, closureCells: closureCells(callee, bvals)}
 	// site ghosts "before"
 	p.siteGhosts(in, "before")
@@ -548,6 +549,7 @@ func (p *Path) builtin(in ssa.Instruction, b *ssa.Builtin, cc *ssa.CallCommon) V
 		mt := m.Ty.Underlying().(*types.Map)
 		hh, _ := env.mapHeaps(mt)
 		site := p.fx.site(in, "call(delete)")
+		p.guardMap(cc.Args[0], true, site)
 		p.frameCheck(site, []Loc{{Heap: hh, Addr: m.T, MapRow: true}})
 		p.setHeap(hh, fmt.Sprintf("(ite (= %s nil) %s (store %s %s (store (select %s %s) %s false)))", m.T, p.heap(hh), p.heap(hh), m.T, p.heap(hh), m.T, k.T))
 		return Val{}
@@ -713,4 +715,45 @@ func (p *Path) poolCall(in ssa.Instruction, cc *ssa.CallCommon, method string) (
 	}
 	p.siteGhosts(in, "after")
 	return Val{}, true
+}
+
+// lockInvCheck: the declared lock invariant holds whenever the lock is released.
+func (p *Path) lockInvCheck(in ssa.Instruction, what, site string) {
+	switch what {
+	case "sync.(*Mutex).Unlock", "sync.(*RWMutex).Unlock", "sync.(*RWMutex).RUnlock":
+	default:
+		return
+	}
+	ci, ok := in.(ssa.CallInstruction)
+	if !ok || len(ci.Common().Args) == 0 {
+		return
+	}
+	var fa *ssa.FieldAddr
+	switch a := ci.Common().Args[0].(type) {
+	case *ssa.FieldAddr:
+		fa = a
+	case *ssa.UnOp: // pointer-typed mutex field: *(&x.mu)
+		if f, ok := a.X.(*ssa.FieldAddr); ok {
+			fa = f
+		}
+	}
+	if fa == nil {
+		return
+	}
+	st := fa.X.Type().Underlying().(*types.Pointer).Elem()
+	fname := st.Underlying().(*types.Struct).Field(fa.Field).Name()
+	owner := ghostOwner(st)
+	for _, li := range p.fx.env.specs.LockInvs {
+		if li.Field != fname || !(li.Owner == owner || strings.HasSuffix(owner, "."+li.Owner)) {
+			continue
+		}
+		c := p.specCtx().with(map[string]Val{"x": p.val(fa.X)})
+		c.fn = nil
+		t, err := c.EvalBool(li.E)
+		if err != nil {
+			p.specError("lockinv", Clause{Src: li.Src}, err)
+			continue
+		}
+		p.oblige("lockinv", site, "lock invariant holds at release: "+li.Src, t)
+	}
 }
